@@ -105,16 +105,21 @@ def r2_limit_order(ctx, res):
                     res.find(key, site.loc, f'find_lexicons selects one lexicon with ORDER BY {ob}; "the most recently added one" requires '
                                             f'ORDER BY rowid DESC')
     f = _fl(ctx)
-    # the limit is decided per specifier: unlimited iff the specifier has a star
+    # the limit is decided per specifier: unlimited iff the specifier has a star (read off the statement variants and their path facts)
     key = 'limit-decision'
-    lims = [n for n in walk_no_nested(f.node) if isinstance(n, ast.Assign) and norm(n.targets[0]) == 'limit']
-    res.inst(key, f.module.loc(f.node), f'{[norm(x.value) for x in lims]}')
-    if n == 0:
+    vs = [v for s_ in ctx.sites_of(f.key) for v in s_.variants if v.stmt is not None]
+    res.inst(key, f.module.loc(f.node), f'{[(v.stmt.limit(), dict(v.facts)) for v in vs][:4]}')
+    if n == 0 or not vs:
         res.find(key, f.module.loc(f.node), 'find_lexicons no longer limits the selection for a bare id to one lexicon')
-    for x in lims:
-        v = x.value
-        if not (isinstance(v, ast.IfExp) and norm(v.body) == "'-1'" and norm(v.orelse) == "'1'" and norm(v.test).startswith("'*' in ")):
-            res.find(key, f.module.loc(x), f'limit is computed as `{norm(v)}`; expected unlimited iff the specifier contains a star, else 1')
+    lims = sorted({(v.stmt.limit() or '').replace(' ', '') for v in vs})
+    if lims != ['-1', '1']:
+        res.find(key, f.module.loc(f.node), f'find_lexicons sends statements with LIMIT {lims}; expected -1 (specifier with a star) and 1')
+    from ..speccheck import view
+    fv = view(ctx, '_queries', 'find_lexicons')
+    ys = [r for r in fv.rows if r[0] == 'yield' and len(r[3]) == 2]
+    if not ys or not all("'-1' if '*' in $1 else '1'" in r[3][1] for r in ys):
+        res.find(key, f.module.loc(f.node), f'the limit is no longer `-1 if the specifier (as given) contains a star else 1`: '
+                                            f'{[r[3][1][-160:] for r in ys][:1]}')
 
 
 def r3_match_shape(ctx, res):
@@ -135,34 +140,45 @@ def r3_match_shape(ctx, res):
             res.find(key + ':table', sites[0].loc, 'find_lexicons does not select from lexicons')
         if v.params[0] == 'named' and set(v.params[1]) != {'specifier', 'language'}:
             res.find(key + ':params', sites[0].loc, f'find_lexicons binds {sorted(v.params[1])}')
-    src = Frag(f.node)
+    from ..speccheck import view
+    fv = view(ctx, '_queries', 'find_lexicons')
+    ys = [r for r in fv.rows if r[0] == 'yield']
     key = 'colon-star-appended'
-    ifs = [n for n in walk_no_nested(f.node) if isinstance(n, ast.If) and norm(n.test) == "':' not in specifier"]
-    res.inst(key, f.module.loc(f.node), "if ':' not in specifier: specifier += ':*'")
-    if len(ifs) != 1 or [norm(s) for s in ifs[0].body] != ["specifier += ':*'"] or ifs[0].orelse:
+    res.inst(key, f.module.loc(f.node), "specifier + ':*' exactly when it has no colon")
+    want = "{'specifier': $1 + ':*' if ':' not in $1 else $1, 'language': lang}"
+    okp = bool(ys) and all(len(r[3]) == 2 and r[3][0] == 'for lexicon.split()' for r in ys)
+    if not okp or not all(want in r[3][1] for r in ys):
         res.find(key, f.module.loc(f.node), '":*" is no longer appended exactly when the specifier has no colon (a bare id must match every '
-                                            'version of exactly that id)')
+                                            'version of exactly that id), or the statement is no longer bound to (specifier: this specifier, '
+                                            f'language: lang): {[r[3][1][-110:] for r in ys][:1]}')
     key = 'params-dict'
-    res.inst(key, f.module.loc(f.node), "{'specifier': specifier, 'language': lang}")
-    if "{'specifier': specifier, 'language': lang}" not in src:
-        res.find(key, f.module.loc(f.node), 'the statement is no longer bound to {specifier: this specifier, language: lang}')
+    res.inst(key, f.module.loc(f.node), want)
 
 
 def r4_error_vs_empty(ctx, res):
     f = _fl(ctx)
+    from ..speccheck import view
+    fv = view(ctx, '_queries', 'find_lexicons')
     key = 'raises-when-nothing-found'
-    ifs = [n for n in walk_no_nested(f.node) if isinstance(n, ast.If) and n.body and isinstance(n.body[-1], ast.Raise)]
-    res.inst(key, f.module.loc(f.node), f'{[norm(i.test) for i in ifs]}')
-    ok = len(ifs) == 1 and norm(ifs[0].test) == "not found and (lexicon != '*' or lang is not None)" and 'wn.Error' in norm(ifs[0].body[-1])
+    raises = [r for r in fv.rows if r[0] == 'raise']
+    res.inst(key, f.module.loc(f.node), f'{[(r[1][:40], sorted(r[2])) for r in raises]}')
+    ok = len(raises) == 1 and raises[0][1].startswith('wn.Error(') and not raises[0][3] \
+        and {g for g in raises[0][2] if not g.startswith('not #')} == {"lexicon != '*' or lang is not None"} \
+        and len([g for g in raises[0][2] if g.startswith('not #')]) == 1
     if not ok:
         res.find(key, f.module.loc(f.node), "find_lexicons no longer raises wn.Error exactly when nothing matched and the request was more "
-                                            "specific than the bare '*'")
+                                            f"specific than the bare '*': {[(r[1][:40], sorted(r[2])) for r in raises]}")
     key = 'found-flag'
-    sets = [n for n in walk_no_nested(f.node) if isinstance(n, ast.Assign) and norm(n) == 'found = True']
-    res.inst(key, f.module.loc(f.node), 'found = True next to the yield')
-    okf = any(any(isinstance(x, (ast.For,)) for x in parents(s)) for s in sets) and 'found = False' in norm(f.node)
+    res.inst(key, f.module.loc(f.node), 'flag set next to every yield')
+    okf = False
+    if ok:
+        flag = [g for g in raises[0][2] if g.startswith('not #')][0][4:]
+        ys = [r for r in fv.rows if r[0] == 'yield']
+        sets = [r for r in fv.rows if r[0] == 'store' and r[1] == f'{flag} = True']
+        init = [e for e in fv.E if e.kind == 'new' and e.text.startswith(flag + '<False>') and not e.ctx]
+        okf = bool(ys) and bool(init) and all(any(s_[3] == y[3] and s_[2] == y[2] for s_ in sets) for y in ys)
     if not okf:
-        res.find(key, f.module.loc(f.node), 'the `found` flag is no longer set for every yielded row')
+        res.find(key, f.module.loc(f.node), 'the `found` flag is no longer initialised false and set for every yielded row')
     lx = ctx.repo.func('_core', 'lexicons')
     key = 'lexicons-empty-on-error'
     tries = [n for n in walk_no_nested(lx.node) if isinstance(n, ast.Try)]
